@@ -206,17 +206,24 @@ def instChecks (e : BatchEnv) (s : BatchShape) (i : Nat) : List Check :=
     must (inst.quotientChunks.all (· == e.base.dim)),
     must (match inst.random with | some r => r == e.base.dim | none => true) ]
 
-/-- `natural_domain_for_degree(1 << base_db)` / `(1 << ext_db)` for every entry of `degree_bits`
-(lines 641-649): shift, then `TwoAdicMultiplicativeCoset::new(..).unwrap()`. -/
-def domainChecks (e : BatchEnv) (s : BatchShape) : List Check :=
-  s.degreeBits.flatMap fun db =>
-    [ partialStep (db < e.base.wordBits), partialStep (db ≤ e.base.twoAdicity) ]
+/-- fix ca07f07 (F9a): after the validation loop, for every instance
+`degree_bits[i].checked_add(log_quotient_degrees[i])` must be below `usize::BITS` and at most
+`Val::bits()`, else `InvalidProofShape` — before any shift by `degree_bits`
+(`degree_bits.zip(log_quotient_degrees)`; both have one entry per AIR here). -/
+def degreeRangeChecks (e : BatchEnv) (s : BatchShape) : List Check :=
+  (List.range e.airs.length).map fun i =>
+    must (s.db i + e.lq i < e.base.wordBits && s.db i + e.lq i ≤ e.base.valBits)
 
-/-- Quotient domains (lines 710-726): `1 << (base_db + log_qd)`, `create_disjoint_domain`. -/
+/-- `natural_domain_for_degree(1 << base_db)` / `(1 << ext_db)` for every entry of `degree_bits`:
+`TwoAdicMultiplicativeCoset::new(..).unwrap()` (the shift itself is in range since fix ca07f07).
+What is left of F9a: the bound is the field bit width, the PCS needs the two-adicity. -/
+def domainChecks (e : BatchEnv) (s : BatchShape) : List Check :=
+  s.degreeBits.map fun db => partialStep (db ≤ e.base.twoAdicity)
+
+/-- Quotient domains: `create_disjoint_domain(1 << (base_db + log_qd))` (shift in range since fix
+ca07f07). -/
 def quotientDomainChecks (e : BatchEnv) (s : BatchShape) : List Check :=
-  (List.range e.airs.length).flatMap fun i =>
-    [ partialStep (s.db i + e.lq i < e.base.wordBits),
-      partialStep (s.db i + e.lq i ≤ e.base.twoAdicity) ]
+  (List.range e.airs.length).map fun i => partialStep (s.db i + e.lq i ≤ e.base.twoAdicity)
 
 /-- Quotient round (lines 744-756): `domains.len() != quotient_chunks.len()`. -/
 def quotientRoundChecks (e : BatchEnv) (s : BatchShape) : List Check :=
@@ -266,6 +273,7 @@ def batchRounds (e : BatchEnv) (s : BatchShape) : List Round :=
 def batchPrefix (e : BatchEnv) (s : BatchShape) : List Check :=
   batchCountChecks e s
   ++ (List.range e.airs.length).flatMap (instChecks e s)
+  ++ degreeRangeChecks e s
   ++ [ -- `is_lookup != all_lookups.iter().any(|c| !c.is_empty())`
        must (s.isLookup == s.lookups.any (· != 0)) ]
   ++ domainChecks e s
@@ -289,13 +297,13 @@ def batchChecks (e : BatchEnv) (s : BatchShape) : List Check :=
 caller supplies the AIRs and one public-value count per AIR; `allocate` is only called with as
 many counts as the proof has instances — its documented precondition). -/
 def verifyBatchChecks (e : BatchEnv) (s : BatchShape) : List Check :=
-  [ must (s.instances.length == s.publicValues) ] ++ allocFri e.base s.fri ++ batchChecks e s
+  [ must (s.instances.length == s.publicValues) ] ++ batchChecks e s
 
 def verifyBatch (e : BatchEnv) (s : BatchShape) : Out := run (verifyBatchChecks e s)
 
 /-- `verify_p3_batch_proof_circuit`. -/
 def verifyP3BatchChecks (p : P3Env) (e : BatchEnv) (m : MetaShape) (s : BatchShape) : List Check :=
-  p3Prefix p m s ++ allocFri e.base s.fri ++ batchChecks e s
+  p3Prefix p m s ++ batchChecks e s
 
 def verifyP3Batch (p : P3Env) (e : BatchEnv) (m : MetaShape) (s : BatchShape) : Out :=
   run (verifyP3BatchChecks p e m s)
